@@ -89,6 +89,15 @@ impl<'a, D: DependencyProvider> Encoder<'a, D> {
     ) -> Result<Vec<ClauseId>, Box<dyn Any>> {
         // Queue the initial solvables for processing.
         for solvable_id in solvable_ids {
+            // A solvable that is installed directly (a soft requirement) instead of
+            // through a requirement has not necessarily been seen as a candidate of its
+            // package yet. Make sure it takes part in the at-most-one-per-package
+            // clauses, otherwise it could be selected next to another solvable of the
+            // same package.
+            if let Some(solvable) = solvable_id.solvable() {
+                let variable = self.state.variable_map.intern_solvable(solvable);
+                self.forbid_multiple_instances(solvable, variable);
+            }
             self.queue_solvable(solvable_id);
         }
 
@@ -250,35 +259,7 @@ impl<'a, D: DependencyProvider> Encoder<'a, D> {
             // Add forbid constraints for this solvable on all other
             // solvables that have been visited already for the same
             // version set name.
-            let name_id = self.cache.provider().solvable_name(candidate);
-            let other_solvables = self
-                .state
-                .forbidden_clauses_added
-                .entry(name_id)
-                .or_default();
-            other_solvables.add(
-                candidate_var,
-                |a, b, positive| {
-                    let (watched_literals, kind) = WatchedLiterals::forbid_multiple(
-                        a,
-                        if positive { b.positive() } else { b.negative() },
-                        name_id,
-                    );
-                    let clause_id = self.state.clauses.alloc(watched_literals, kind);
-                    let watched_literals = self.state.clauses.watched_literals
-                        [clause_id.to_usize()]
-                    .as_mut()
-                    .expect("forbid clause must have watched literals");
-                    self.state
-                        .watches
-                        .start_watching(watched_literals, clause_id);
-                },
-                || {
-                    self.state
-                        .variable_map
-                        .alloc_forbid_multiple_variable(name_id)
-                },
-            );
+            self.forbid_multiple_instances(candidate, candidate_var);
         }
 
         // Add the requirements clause
@@ -383,6 +364,40 @@ impl<'a, D: DependencyProvider> Encoder<'a, D> {
                 self.conflicting_clauses.push(clause_id);
             }
         }
+    }
+
+    /// Adds the clauses that forbid the given solvable to be installed together with any
+    /// other solvable of the same package that the solver has seen so far. Does nothing if
+    /// the solvable has been registered before.
+    fn forbid_multiple_instances(&mut self, candidate: SolvableId, candidate_var: VariableId) {
+        let name_id = self.cache.provider().solvable_name(candidate);
+        let other_solvables = self
+            .state
+            .forbidden_clauses_added
+            .entry(name_id)
+            .or_default();
+        other_solvables.add(
+            candidate_var,
+            |a, b, positive| {
+                let (watched_literals, kind) = WatchedLiterals::forbid_multiple(
+                    a,
+                    if positive { b.positive() } else { b.negative() },
+                    name_id,
+                );
+                let clause_id = self.state.clauses.alloc(watched_literals, kind);
+                let watched_literals = self.state.clauses.watched_literals[clause_id.to_usize()]
+                    .as_mut()
+                    .expect("forbid clause must have watched literals");
+                self.state
+                    .watches
+                    .start_watching(watched_literals, clause_id);
+            },
+            || {
+                self.state
+                    .variable_map
+                    .alloc_forbid_multiple_variable(name_id)
+            },
+        );
     }
 
     /// Adds clauses to forbid any other clauses than the locked solvable to be installed.
